@@ -36,11 +36,11 @@ sys.path.insert(0, os.path.join(ROOT, "engine"))
 # ---------------------------------------------------------------------------
 FLAVOURS = {
     #  name:   (cargo features, default-features, hooks, profile)
-    "asm": ([], True, True, "release"),
+    "asm": (["cshim"], True, True, "release"),
     "intr": (["intr"], True, True, "release"),
     "pure": (["pure"], True, True, "release"),
     "nostd": ([], False, True, "release"),
-    "plain": ([], True, True, "plain"),
+    "plain": (["cshim"], True, True, "plain"),
     "stock_no_avx512": (["no_avx512"], True, False, "release"),
     "stock_no_avx2": (["no_avx512", "no_avx2"], True, False, "release"),
     "stock_no_sse41": (["no_avx512", "no_avx2", "no_sse41"], True, False, "release"),
@@ -53,6 +53,9 @@ PROP_FLAVOURS = {
     "C01": {"quick": ["asm"], "thorough": ["asm", "plain"]},
     "C02": {"quick": ["asm"], "thorough": ["asm", "plain"]},
     "C03": {"quick": ["asm"], "thorough": ["asm", "plain"]},
+    "C04": {"quick": ["asm", "intr", "pure", "nostd"],
+            "thorough": ["asm", "intr", "pure", "nostd", "plain", "stock", "stock_no_avx512", "stock_no_avx2", "stock_no_sse41", "stock_no_sse2"]},
+    "C05": {"quick": ["asm", "intr", "pure"], "thorough": ["asm", "intr", "pure", "plain"]},
     "C09": {"quick": ["asm"], "thorough": ["asm", "plain"]},
     "C10": {"quick": ["asm"], "thorough": ["asm", "plain"]},
 }
